@@ -443,7 +443,50 @@ let execpertsm_cmd (toks : string list) : string option =
        | [] -> None)
   | _ -> None
 
-let handlers : (string list -> string option) list ref = ref [loc_cmd; execpertsm_cmd; index_cmd; tree_cmd; exec_cmd; exectsm_cmd; execper_cmd; execcnttsm_cmd; execcnt_cmd; mem_cmd; unif_cmd; p2p_cmd]
+(* exectop d H B mode k stop nf f_1..f_nf N nums : the real upward pass, then the top tree alone once per flag mask *)
+let exectop_cmd (toks : string list) : string option =
+  match toks with
+  | "exectop" :: d :: h :: b :: mode :: k :: stop :: nf :: rest ->
+      let nf = int_of_string nf in
+      let masks = take nf rest in
+      (match drop nf rest with
+       | n :: nums ->
+         (match parse_tree ("tree" :: d :: "1" :: h :: b :: mode :: n :: nums) with
+          | Some (di, _, _, t, _, _) ->
+              let dn = nat_of_int di in
+              let kz = z_of_string k in
+              let up = List.map call_str (execute dn true (z_of_string stop) (z_of_string "6") t) in
+              let tops = List.concat (List.map (fun f -> List.map tcall_str (top_execute dn kz (z_of_string f) t)) masks) in
+              Some (dump_tree t ^ " || " ^ String.concat " ; " (up @ tops))
+          | None -> None)
+       | [] -> None)
+  | _ -> None
+
+let exectoptsm_cmd (toks : string list) : string option =
+  match toks with
+  | "exectoptsm" :: d :: h :: b :: mode :: k :: stop :: nf :: rest ->
+      let nf = int_of_string nf in
+      let masks = take nf rest in
+      let di = int_of_string d in
+      (match drop nf rest with
+       | ns :: rest2 ->
+         let ns_i = int_of_string ns in
+         let snums = take (ns_i * di) rest2 in
+         (match drop (ns_i * di) rest2 with
+          | nt :: tnums ->
+            (match parse_tree ("tree" :: d :: "1" :: h :: b :: mode :: ns :: snums), parse_tree ("tree" :: d :: "1" :: h :: b :: mode :: nt :: tnums) with
+             | Some (_, _, _, ts, _, _), Some (_, _, _, tt, _, _) ->
+                 let dn = nat_of_int di in
+                 let kz = z_of_string k in
+                 let up = List.map call_str (execute_tsm dn true (z_of_string stop) (z_of_string "6") ts tt) in
+                 let tops = List.concat (List.map (fun f -> List.map tcall_str (top_execute_tsm dn kz (z_of_string f) ts tt)) masks) in
+                 Some (dump_tree ts ^ " || " ^ dump_tree tt ^ " || " ^ String.concat " ; " (up @ tops))
+             | _ -> None)
+          | [] -> None)
+       | [] -> None)
+  | _ -> None
+
+let handlers : (string list -> string option) list ref = ref [loc_cmd; exectoptsm_cmd; exectop_cmd; execpertsm_cmd; index_cmd; tree_cmd; exec_cmd; exectsm_cmd; execper_cmd; execcnttsm_cmd; execcnt_cmd; mem_cmd; unif_cmd; p2p_cmd]
 
 let () =
   let ic = open_in Sys.argv.(1) in
